@@ -497,3 +497,105 @@ func VerifH_C11_preCommit() {
 		vAssert(vSame(w.Updates, want), "updates-are-exactly-the-later-versions")
 	}
 }
+
+// c11Grouped: reference for the documented pre-commit-time grouping rule
+// (core.ChildList.FindVisible doc comment), all versions visible, strictly
+// increasing timestamps: among the versions inside [at-eps, at+eps] that are at or
+// before 'at', or after 'at' and of the parent's changeset, the one closest to 'at';
+// if there is none, the last version before the window. Returns the index and
+// whether a second candidate is equally close (tie: either is accepted).
+func (c *c11Child) grouped(at, cs, eps int64) (int, int) {
+	best, tie := -1, -1
+	bestD := int64(-1)
+	for i := range c.vers {
+		ts := c.vers[i].committed
+		if ts < at-eps {
+			if bestD < 0 {
+				best = i
+			}
+			continue
+		}
+		if ts > at+eps {
+			continue
+		}
+		if ts > at && c.vers[i].cs != cs {
+			continue
+		}
+		d := ts - at
+		if d < 0 {
+			d = -d
+		}
+		if bestD < 0 || d < bestD {
+			best, tie, bestD = i, -1, d
+		} else if d == bestD {
+			tie = i
+		}
+	}
+	return best, tie
+}
+
+// Pre-commit-time regime with edits inside the grouping window: one node with up to
+// maxChildVersions versions (timestamps only, symbolic changesets), up to maxParents way
+// versions with symbolic timestamps and changesets, constant threshold eps.
+func VerifH_C11_forwardGrouping() {
+	eps := int64(vParam("epsSeconds", 1800))
+	nv := vRange("childVersions", 1, vParam("maxChildVersions", 3))
+	a := &c11Child{id: 100}
+	for i := 0; i < nv; i++ {
+		ts := vInt64("childTimestamp")
+		vAssume(vAnd(ts >= c11PreStart, ts < c11PreEnd))
+		if i > 0 {
+			vAssume(a.vers[i-1].committed < ts)
+		}
+		v := c11Ver{version: i + 1, committed: ts, cs: vInt64("childCS"), lat: vF64("lat"), lon: vF64("lon"), visible: true}
+		v.node = &osm.Node{ID: a.id, Version: v.version, ChangesetID: osm.ChangesetID(v.cs), Lat: v.lat, Lon: v.lon, Visible: true, Timestamp: time.Unix(ts, 0)}
+		a.vers = append(a.vers, v)
+	}
+	np := vRange("parents", 1, vParam("maxParents", 2))
+	var ways osm.Ways
+	var pts, pcs []int64
+	for i := 0; i < np; i++ {
+		ts := vInt64("parentTimestamp")
+		vAssume(vAnd(ts >= c11PreStart, ts < c11PreEnd))
+		if i > 0 {
+			vAssume(pts[i-1] < ts)
+		}
+		cs := vInt64("parentCS")
+		pts = append(pts, ts)
+		pcs = append(pcs, cs)
+		ways = append(ways, &osm.Way{ID: 7, Version: i + 1, Visible: true, ChangesetID: osm.ChangesetID(cs), Timestamp: time.Unix(ts, 0),
+			Nodes: osm.WayNodes{{ID: a.id}}})
+	}
+	// the node exists when the way is created
+	vAssume(a.vers[0].committed <= pts[0])
+	err := Ways(context.Background(), ways, &c11DS{children: []*c11Child{a}}, Threshold(time.Duration(eps)*time.Second))
+	vReach("annotated")
+	vAssert(err == nil, "no-error")
+	if err != nil {
+		return
+	}
+	for pi, w := range ways {
+		g, tie := a.grouped(pts[pi], pcs[pi], eps)
+		v := a.vers[g]
+		ok := vSame(w.Nodes[0], osm.WayNode{ID: a.id, Version: v.version, ChangesetID: osm.ChangesetID(v.cs), Lat: v.lat, Lon: v.lon})
+		if tie >= 0 {
+			v2 := a.vers[tie]
+			ok = ok || vSame(w.Nodes[0], osm.WayNode{ID: a.id, Version: v2.version, ChangesetID: osm.ChangesetID(v2.cs), Lat: v2.lat, Lon: v2.lon})
+		}
+		vAssert(ok, "child-is-the-grouped-version")
+		for _, u := range w.Updates {
+			vAssert(u.Version > w.Nodes[0].Version, "updates-are-later-versions")
+		}
+	}
+	// time travel: any t at least eps after a way version and more than eps before the next one
+	pi := vRange("queriedParent", 0, np-1)
+	t := vInt64("queryTime")
+	vAssume(vAnd(t >= pts[pi]+eps, t < c11PreEnd+10*eps))
+	if pi+1 < np {
+		vAssume(t < pts[pi+1]-eps)
+	}
+	w := ways[pi]
+	vAssert(w.ApplyUpdatesUpTo(time.Unix(t, 0)) == nil, "apply-no-error")
+	v := a.vers[a.cur(t)]
+	vAssert(vSame(w.Nodes[0], osm.WayNode{ID: a.id, Version: v.version, ChangesetID: osm.ChangesetID(v.cs), Lat: v.lat, Lon: v.lon}), "state-at-t-is-version-current-at-t")
+}
